@@ -106,7 +106,7 @@ func (r *lifeRec) hook(point string, id int) {
 		r.mu.Unlock()
 		g = fmt.Sprintf("%s%d", k, id)
 	}
-	if point != "t.poll" && point != "r.wait" { // stuttering steps are not logged
+	if point != "t.poll" && point != "r.wait" && point != "r.born" && point != "t.born" { // stuttering steps and goroutine births are not logged
 		r.add(g, point, "", "", false)
 	}
 	if r.jitter > 0 {
